@@ -439,6 +439,13 @@ def run_scenario(V, sc, idx, wd, tier, rng):
         V.count()
         r = res.get(c["id"], {})
         V.bump("crash_states_" + model)
+        if "panic" in r:
+            V.violation("after a crash (%s; %s model) the later run panicked: %s" % (label, model, json.dumps(r["panic"])[:200]),
+                        {"kind": "crash_state", "prop": PROP, "label": label, "model": model,
+                         "files_hex": {n: cc.hex() for n, cc in files.items()}, "today": sc["t3"].isoformat()},
+                        {"what": "later run panicked on a crash state"})
+            shutil.rmtree(c["dir"], ignore_errors=True)
+            continue
         if "runs" not in r:
             V.unjudged += 1
             continue
